@@ -13,6 +13,8 @@ CONSTANTS
   RuleTypes = {1, 3, 4}
   LigLens = {1, 2, 3}
   Kinds = {"ttf", "cff", "cid"}
+  CmapFormats = {"4", "12", "6", "0"}
+  LigFirst = -1
   TextSel = "mix"
   Flags = TRUE
   Quiet = FALSE
